@@ -22,7 +22,7 @@ RULE = ("one evaluation = one written variable of one operation history (select 
 BUDGET = {"quick": (12000, 40), "thorough": (200000, 900)}
 
 FORMAT_WEIGHTS = [(3, "bed3"), (3, "bed6"), (2, "narrowpeak"), (3, "vcf"), (3, "sam"), (1, "gtf"), (3, "fastq"),
-                  (2, "fasta2"), (1, "bdg"), (2, "bed12"), (2, "vcfinfo")]
+                  (2, "fasta2"), (1, "bdg"), (2, "bed12"), (2, "vcfinfo"), (2, "vcfgt")]
 
 
 def generate(ctx, format_weights=None, noncanon=True, max_ops=None):
